@@ -753,7 +753,7 @@ def check(run, props):
         if j % 2:
             h2 = [op for op in h2 if op['op'] != 'close']
         bigdecl.append((3 * 10 ** 6 + j, h2, False))
-    cap = 4000 if run.quick else 10000          # TLC checks every history; the implementation replays a seeded sample of them
+    cap = 4000 if run.quick else 6000          # TLC checks every history; the implementation replays a seeded sample of them
     run.extra['histories_total'] = len(items)
     if len(items) > cap:
         keep = [it for it in items if it[2]]
@@ -761,8 +761,8 @@ def check(run, props):
         rng.shuffle(rest)
         items = keep + rest[:max(0, cap - len(keep))]
     items += bigdecl
-    nrand = 150 if run.quick else 1500
-    rand_items = [(10 ** 6 + j, run.seed * 1000003 + j, 40 if run.quick else 300, 'C14' in props) for j in range(nrand)]
+    nrand = 150 if run.quick else 600
+    rand_items = [(10 ** 6 + j, run.seed * 1000003 + j, 40 if run.quick else 200, 'C14' in props) for j in range(nrand)]
     nproc = 16
     parts = []
     jobs = []
